@@ -75,6 +75,22 @@ private:
 using EquivalenceCacheObserver = void (*)(const void *analyserModel, uintptr_t v1, uintptr_t v2, const void *key, size_t keySize, bool cacheHit, size_t cacheSize);
 inline EquivalenceCacheObserver equivalenceCacheObserver = nullptr;
 
+/**
+ * Scheduling point for caller threads.  The library has no threads of its own;
+ * when several caller threads ask questions about the same model, a simulator
+ * may want to decide how their walks over the equivalence graph interleave.
+ * Called at every step of such a walk when set; does nothing otherwise.
+ */
+using YieldFunction = void (*)(const char *where);
+inline YieldFunction yieldPoint = nullptr;
+
+inline void yield(const char *where)
+{
+    if (yieldPoint != nullptr) {
+        yieldPoint(where);
+    }
+}
+
 } // namespace verif
 } // namespace libcellml
 
